@@ -351,6 +351,7 @@ func DNSCaching(ttl time.Duration) func(*Attacker) {
 				}()
 			}
 
+			var rngmu sync.Mutex // rng is shared by all concurrent dials
 			rng := rand.New(rand.NewSource(time.Now().UnixNano()))
 
 			tr.DialContext = func(ctx context.Context, network, addr string) (conn net.Conn, err error) {
@@ -371,7 +372,13 @@ func DNSCaching(ttl time.Duration) func(*Attacker) {
 				// Pick a random IP from each IP family and dial each concurrently.
 				// The first that succeeds wins, the other gets canceled.
 
+				// LookupHost returns the resolver's cached slice: shuffle and
+				// compact a copy, or the cache loses addresses for good.
+				ips = append([]string(nil), ips...)
+
+				rngmu.Lock()
 				rng.Shuffle(len(ips), func(i, j int) { ips[i], ips[j] = ips[j], ips[i] })
+				rngmu.Unlock()
 
 				ips = firstOfEachIPFamily(ips)
 
